@@ -1149,6 +1149,32 @@ func (t *tr) expr(e ast.Expr) (string, T) {
 				return "[" + strings.Join(els, ", ") + "]", t.g.goT(tv.Type)
 			}
 		}
+		// a literal of a configured struct type with field names: the zero value with those fields set
+		if tv, ok := t.p.info.Types[x]; ok {
+			if st := t.g.goT(tv.Type); st.Kind == "struct" {
+				var sets []string
+				for _, el := range x.Elts {
+					kv, ok := el.(*ast.KeyValueExpr)
+					if !ok {
+						t.fail(x, "positional struct literal")
+					}
+					fid, ok := kv.Key.(*ast.Ident)
+					if !ok {
+						t.fail(x, "struct literal key")
+					}
+					f := t.g.field(st.Lean, fid.Name)
+					if f == nil {
+						t.fail(x, "field %s of %s is not modelled", fid.Name, st.Lean)
+					}
+					v, _ := t.expr(kv.Value)
+					sets = append(sets, f.Lean+" := "+v)
+				}
+				if len(sets) == 0 {
+					return "(default : " + st.Lean + ")", st
+				}
+				return "({ (default : " + st.Lean + ") with " + strings.Join(sets, ", ") + " } : " + st.Lean + ")", st
+			}
+		}
 		var parts []string
 		for _, el := range x.Elts {
 			if _, kv := el.(*ast.KeyValueExpr); kv {
